@@ -18,6 +18,9 @@ def run(ctx):
     specs = util.corpus(ctx.prop) + gen.gen_many(ctx.seed, n, CFG, 'c15_')
     # date windows at the repeated / missing hour of a DST switch
     specs += gen.gen_many(ctx.seed, n // 3, dict(CFG, aware=True, tzs=['CET'], p_dst=1.0, freqs=['h', '30min'], T=(5, 10)), 'c15dst_')
+    # portfolios with binary variables next to assets that have none (mapping column 'bool' partly missing)
+    specs += gen.gen_many(ctx.seed, n // 3, dict(CFG, p_coarse=0.0, p_periodic=0.0, p_no_simult=0.7, p_max_store=0.3, n_assets=(2, 4), T=(4, 7),
+                                                 kinds={'SimpleContract': 3, 'Transport': 2, 'Storage': 4, 'Contract': 1}), 'c15mip_')
     for i, sp in enumerate(specs):
         rng = random.Random(str(sp['seed']) + '/fix')
         if 'fix' not in sp['opts']:
